@@ -120,6 +120,11 @@ RESOLVE = {
     ('AppEnvironment.__exit__', "self['closer']"): 'prepare.closer',
 }
 
+# roles of call sites on the request path (the observation map from skeleton executions to pipeline events)
+ROLE_NAMES = ['chain', 'respCb', 'newResponse', 'finCb', 'newRequest', 'routesMapper', 'beforeTraversal',
+              'rootFactory', 'traverser', 'contextFound', 'callView', 'finishCheck']
+EVENT_ROLE = {'NewResponse': 2, 'NewRequest': 4, 'BeforeTraversal': 6, 'ContextFound': 9}
+
 # method names resolved whatever the receiver expression is (dynamic dispatch taken on trust, like RESOLVE): lets the
 # resolution survive the extraction of a helper (the call moves into another function) or a renamed local
 GLOBAL_METHODS = {
@@ -228,6 +233,8 @@ class Tr:
         self.types = {}          # local variable -> 'RequestContext' for the function being translated
         self.cls = None          # ast.ClassDef of the function being translated
         self.depth = 0
+        self.cur = None          # FunctionDef being translated (for def-use look-ups of locals)
+        self.roles = {}          # site id -> role (see ROLE_NAMES)
         self.no_raise = []
         self.unknowns = []
         self.fn = None
@@ -239,8 +246,9 @@ class Tr:
 
     def gen_cm(self, fn, qual, lean, cls=None):
         """translate an @contextmanager generator as a Lean function of the with-body"""
-        saved = (self.fn, self.types, self.cls)
+        saved = (self.fn, self.types, self.cls, self.cur)
         self.fn = qual
+        self.cur = fn
         self.types = self.infer_types(fn, {})
         if cls is not None:
             self.cls = cls
@@ -250,7 +258,7 @@ class Tr:
         else:
             term = self.block(_body(fn), yield_body='body')
         self.gen_plain[lean] = plain
-        self.fn, self.types, self.cls = saved
+        self.fn, self.types, self.cls, self.cur = saved
         return (lean, qual, True, term)
 
     def local_gen_cm(self, nm):
@@ -294,6 +302,63 @@ class Tr:
             return None
         return self.types.get(v)
 
+    def flow(self, var, depth=0):
+        """names and attribute names mentioned by the expressions bound to local `var` in the current function
+        (through other locals and through the return expressions of same-class / same-module helpers, two levels)"""
+        out = set()
+        if self.cur is None or depth > 2:
+            return out
+        for n in own_nodes(self.cur):
+            if isinstance(n, ast.Assign) and any(isinstance(tg, ast.Name) and tg.id == var for tg in n.targets):
+                out |= self.mentions(n.value, depth)
+        return out
+
+    def mentions(self, expr, depth):
+        out = set()
+        for x in ast.walk(expr):
+            if isinstance(x, ast.Attribute):
+                out.add(x.attr)
+            elif isinstance(x, ast.Name):
+                out.add(x.id)
+                if depth < 2:
+                    out |= self.flow(x.id, depth + 1)
+            if isinstance(x, ast.Call) and depth < 2:
+                hn = self.helper_node(x.func)
+                if hn is not None:
+                    for r in own_nodes(hn[1]):
+                        if isinstance(r, ast.Return) and r.value is not None:
+                            for y in ast.walk(r.value):
+                                if isinstance(y, ast.Attribute):
+                                    out.add(y.attr)
+                                elif isinstance(y, ast.Name):
+                                    out.add(y.id)
+        return out
+
+    def role_of(self, e):
+        """role of a call site on the request path, by what is called (not by the local's name)"""
+        f = e.func
+        for a in list(e.args) + [k.value for k in e.keywords]:
+            if isinstance(a, ast.Call) and name(a.func) in EVENT_ROLE:
+                return EVENT_ROLE[name(a.func)]
+        if isinstance(f, ast.Name):
+            if self.fn == 'CallbackMethodsMixin._process_response_callbacks':
+                return 1
+            if self.fn == 'CallbackMethodsMixin._process_finished_callbacks':
+                return 3
+            if self.fn.startswith('Router.'):
+                if f.id == '_call_view':
+                    return 10
+                m = self.flow(f.id)
+                if m & {'handle_request', 'orig_handle_request'}:
+                    return 0
+                if 'routes_mapper' in m:
+                    return 5
+                if m & {'ITraverser', 'ResourceTreeTraverser'}:
+                    return 8
+                if m & {'root_factory', 'factory'}:
+                    return 7
+        return None
+
     def call_term(self, e, nm):
         f = e.func
         if nm in PUSH:
@@ -316,6 +381,9 @@ class Tr:
         s = self.site(nm, e)
         if nm in NO_RAISE:
             self.no_raise.append(s)
+        r = self.role_of(e)
+        if r is not None:
+            self.roles[s] = r
         return '(.call %d)' % s
 
     def helper_node(self, f):
@@ -350,19 +418,20 @@ class Tr:
             return None
         snap = (len(self.sites), dict(self.counts), list(self.no_raise), list(self.unknowns), len(self.helper_defs),
                 dict(self.helpers), 0, dict(self.auto), dict(self.gen_plain))
-        saved = (self.fn, self.types, self.cls)
+        saved = (self.fn, self.types, self.cls, self.cur)
         self.in_progress.add(key)
         self.depth += 1
-        self.fn, self.cls = qual, cls
+        self.fn, self.cls, self.cur = qual, cls, node
         self.types = self.infer_types(node, {})
         term = self.block(_body(node))
-        self.fn, self.types, self.cls = saved
+        self.fn, self.types, self.cls, self.cur = saved
         self.depth -= 1
         self.in_progress.discard(key)
         interesting = any(x in term for x in ('managerPush', 'managerPop', '(.scope ', 'withCM', '(hide_attrs ', '(route_prefix_context ', '(gen_'))
         if not interesting:
             del self.sites[snap[0]:]
             del self.locs[snap[0]:]
+            self.roles = {k: v for k, v in self.roles.items() if k < snap[0]}
             self.counts, self.no_raise, self.unknowns = snap[1], snap[2], snap[3]
             del self.helper_defs[snap[4]:]
             self.helpers = snap[5]
@@ -507,7 +576,11 @@ class Tr:
         if isinstance(s, ast.Raise):
             return self.seq(self.expr(s.exc) + self.expr(s.cause) + ['.raise'])
         if isinstance(s, ast.If):
-            return self.seq(self.expr(s.test) + ['(.ite %d %s %s)' % (self.site('if'), self.block(s.body, yb), self.block(s.orelse, yb))])
+            pre = self.expr(s.test)
+            sid = self.site('if')
+            if self.fn.startswith('Router.') and any(isinstance(x, ast.Attribute) and x.attr == 'finished_callbacks' for x in ast.walk(s.test)):
+                self.roles[sid] = 11      # the router looks at the finished-callback deque (finish_request is reached)
+            return self.seq(pre + ['(.ite %d %s %s)' % (sid, self.block(s.body, yb), self.block(s.orelse, yb))])
         if isinstance(s, ast.While):
             if s.orelse or self.has_jump(s.body):
                 return self.unknown('while with else/break/continue')
@@ -718,6 +791,7 @@ def generate(src_root):
         outer = find(trees[f], '.'.join(parts[:-1])) if len(parts) > 1 else None
         tr.cls = outer if isinstance(outer, ast.ClassDef) else None
         tr.types = {}
+        tr.cur = fn
         if fn is not None:
             inherited = tr.infer_types(outer, {}) if isinstance(outer, ast.FunctionDef) else {}
             tr.types = tr.infer_types(fn, inherited)
@@ -793,6 +867,10 @@ def generate(src_root):
     L.append('def siteLocs : List String := [')
     L.append(',\n'.join('  "%s"' % s for s in tr.locs))
     L.append(']')
+    L.append('')
+    L.append('/-- the observation map: call site ↦ role on the request path')
+    L.append('(%s) -/' % ', '.join('%d = %s' % (i, n) for i, n in enumerate(ROLE_NAMES)))
+    L.append('def siteRoles : List (Nat × Nat) := [%s]' % ', '.join('(%d, %d)' % kv for kv in sorted(tr.roles.items())))
     L.append('')
     L.append('/-- sites of total constructors (%s) assumed not to raise -/' % ', '.join(sorted(NO_RAISE)))
     L.append('def noRaise : List Nat := [%s]' % ', '.join(map(str, tr.no_raise)))
@@ -881,7 +959,7 @@ def generate(src_root):
     L.append('end Pyr.Gen.C13')
     text = '\n'.join(L) + '\n'
     summary.clear()
-    summary.update({'functions': len(defs), 'sites': len(tr.sites), 'noRaise': [tr.sites[i] for i in tr.no_raise],
+    summary.update({'roles': {tr.sites[k]: ROLE_NAMES[v] for k, v in sorted(tr.roles.items())}, 'functions': len(defs), 'sites': len(tr.sites), 'noRaise': [tr.sites[i] for i in tr.no_raise],
                     'unknowns': tr.unknowns, 'pushPopOwners': owners, 'set_is_push_alias': setalias})
     return {'PyramidModel/Gen/C13Skeleton.lean': text}
 
